@@ -232,6 +232,10 @@ pub fn request_bytes(method: &str, target: &str, headers: &[(String, String)], b
 /// `Err` = the response is not a well-formed HTTP message (or the harness executor got stuck).
 pub fn request(router: &VerifRouter, method: &str, target: &str, headers: &[(String, String)], body: Option<&[u8]>) -> Result<Observed, String> {
     let bytes = request_bytes(method, target, headers, body);
+    request_prebuilt(router, method, bytes)
+}
+/// … with the request bytes written by the caller (targets that are not UTF-8, odd line structure)
+pub fn request_prebuilt(router: &VerifRouter, method: &str, bytes: Vec<u8>) -> Result<Observed, String> {
     let _ = take_log();
     let ex = drive_one(router, &bytes)?;
     let log = take_log();
